@@ -34,6 +34,13 @@ func vouchersOnB() []ksim.Op {
 	return ops
 }
 
+var twoLinks = [][2]int{{0, 1}, {0, 1}}
+
+// voucherOnBViaLink1: user0@B ends up holding 2 transfer/<B's channel of the second link>/stake.
+func voucherOnBViaLink1() []ksim.Op {
+	return append([]ksim.Op{xfer(0, 1, RV1, 0, stakeOf(0), 1, RcvUser0, ToFar)}, deliver(0, 0, 1)...)
+}
+
 // Parts builds the explorations shared by C30, C31, C32 and C49; arm selects the reporting oracle.
 func Parts(c *core.C, arm Arm) []ksim.Part {
 	d := core.Pick(c, 0, 2)
@@ -66,6 +73,15 @@ func Parts(c *core.C, arm Arm) []ksim.Part {
 		mk("2c/macro/both-directions", 6+d, 0.3, &TW{Sync: true, Routes: []int{RV1, RMsgClient}, Timeouts: []int{ToNext}, Bases: []string{Stake}, Kind: 1, MaxPkts: 2, MaxCommits: 1}),
 		// primitive commit / update steps, relays with any of the three newest consensus heights
 		mk("2c/micro/primitive-stale-proofs", 7+d, 0.5, &TW{Stale: true, SendFrom: []int{0}, Routes: []int{RV1, RClient}, Timeouts: []int{ToNext}, Bases: []string{Stake}, MaxPkts: 1, MaxCommits: mc}),
+		// two links between A and B (A: 07-tendermint-0/channel-1 and 07-tendermint-1/channel-2, B: 07-tendermint-1/channel-0 and
+		// 07-tendermint-2/channel-1): the far end's identifier of one link is the near end's identifier of the other, so a handler
+		// that takes the counterparty's identifier moves the other link's escrow; every transfer is refused by the destination
+		mk("2c/macro/two-links/v2-error-acks", 6+d, 0.35, &TW{Topo: twoLinks, Sync: true, SendFrom: []int{0}, Routes: []int{RAlias, RClient}, Receivers: []int{RcvBlocked}, Timeouts: []int{ToFar},
+			Bases: []string{Stake}, MaxPkts: 2, MaxCommits: 1, NoTimeout: true}),
+		// B holds the voucher transfer/channel-1/stake that arrived over the second link and sends it to A over the first link
+		// (B is source zone there: the voucher is escrowed); A refuses it
+		mk("2c/macro/two-links/voucher-over-other-link-refused", 5+d, 0.35, &TW{Topo: twoLinks, Sync: true, Prefix: voucherOnBViaLink1(), SkipPrefix: true, SendFrom: []int{1}, Links: []int{0}, Kind: 2,
+			Routes: []int{RV1, RAlias, RClient}, Receivers: []int{RcvBlocked, RcvUser0}, Timeouts: []int{ToFar}, MaxPkts: 1, MaxCommits: 1, NoTimeout: true, Relayer: 1}),
 		// MsgSendPacket whose signer is not the payload's sender, next to the matching sends of both users
 		mk("2c/macro/signer-mismatch", 4+d, 0, &TW{Sync: true, Mismatch: true, Senders: []int{0, 1}, SendFrom: []int{0}, Routes: []int{RAlias, RClient, RMsgAlias}, Receivers: []int{RcvUser1}, Timeouts: []int{ToFar},
 			MaxPkts: 2, MaxCommits: 1, Relayer: 1}),
